@@ -35,7 +35,10 @@ META = {
                   "(the feature is documented as experimental; failures to trace are counted as rejections). Classes that carry "
                   "per-instance unique ids or closures over local state are exercised as the zoo builds them (module-level functions). "
                   "The structural fingerprint treats tuple/list containers of hyper-parameters as equivalent only for the equality "
-                  "judgement of data *values*; container type changes are reported by the hash monitor of C04.",
+                  "judgement of data *values*; container type changes are reported by the hash monitor of C04. Capture uses the jaxpr route of "
+                  "the repository's own validity helper (tree_unflatten inside make_jaxpr, eval_jaxpr), not make_plxpr/plxpr_to_tape; "
+                  "rt.capture is not a deciding monitor. bind_new_parameters is skipped for MultiControlledX/TemporaryAND (data = control "
+                  "values) and ValueError from parameter validation is a rejection.",
     "shards": {"quick": 4, "thorough": 16},
     "budget_s": {"quick": 150, "thorough": 300},
     "min_evals": {"quick": 3000, "thorough": 40000},
@@ -556,7 +559,7 @@ def _capture(ctx, qp, a, cls, info, sa, Ma):
             elif Ma is not None:
                 Mb = _matrix_or_none(qp, b)
                 if Mb is not None and Mb.shape == Ma.shape and np.max(np.abs(Mb - Ma)) < 1e-6:
-                    mech = f"capture:restructured-same-matrix:{cls}"
+                    mech = "capture:restructured-same-matrix"
         except Exception:  # noqa: BLE001
             pass
         ctx.violation("rt.capture", f"capture-primitive binding gives {_desc(b)} for a = {info['obj']}", case=dict(info, path="capture"), mech=mech)
